@@ -32,6 +32,36 @@ def _ipath(cls, ns, **kb):
     return CIMInstanceName(cls, keybindings=kb, namespace=ns)
 
 
+_EMPTY_FIRST = None
+
+
+def fresh_empty_namespaces_first():
+    """The template content of mockrepo plus the namespace provider, but the
+    repository starts with two EMPTY namespaces, so that their CIM_Namespace
+    instances precede those of the non-empty namespaces (start-state class
+    'some instances of the class can be deleted, a later one cannot')."""
+    global _EMPTY_FIRST
+    import copy
+    import pywbem_mock
+    import mockrepo
+    if _EMPTY_FIRST is None:
+        conn = pywbem_mock.FakedWBEMConnection(default_namespace="root/e0")
+        conn.add_namespace("root/e1")
+        for ns in (NS1, NS2):
+            conn.add_namespace(ns)
+            conn.compile_mof_string(mockrepo.QUALIFIERS + mockrepo.SCHEMA,
+                                    namespace=ns)
+        src = mockrepo.template().cimrepository
+        for ns in (NS1, NS2):
+            for inst in src.get_instance_store(ns).iter_values():
+                conn.add_cimobjects(inst, namespace=ns)
+        conn.install_namespace_provider(
+            "interop", schema_pragma_file=mockrepo.schema_pragma_file())
+        conn.default_namespace = NS1
+        _EMPTY_FIRST = conn
+    return copy.deepcopy(_EMPTY_FIRST)
+
+
 class Gen:
     def __init__(self, conn, rng, workdir):
         self.conn = conn
@@ -198,6 +228,21 @@ class Gen:
                             reference_class="VA"),
                 CIMProperty("right", right, reference_class="VX")]),
                 namespace=NS1))
+        # the lexical form of a namespace name is a free dimension: the same
+        # association with the namespace of a reference (or of the call)
+        # written in another case is still a single-namespace one
+        how = r.choice(["left", "right", "both", "call"])
+        lcase = CIMInstanceName("VA", keybindings={"k": Uint32(a_k)},
+                                namespace=NS1.upper() if how in (
+                                    "left", "both") else NS1)
+        rcase = _ipath("VX", NS1.title() if how in ("right", "both") else NS1,
+                       name="x%d" % x_n, n=Uint16(x_n))
+        add("CreateInstance", "assoc-reference-namespace-case",
+            lambda: c.CreateInstance(CIMInstance("VAssoc", properties=[
+                CIMProperty("left", lcase, reference_class="VA"),
+                CIMProperty("right", rcase, reference_class="VX"),
+                CIMProperty("note", "case")]),
+                namespace=NS1.upper() if how == "call" else NS1))
         # multi-namespace association: left in NS1, right in NS2
         right2 = _ipath("VX", NS2, name="x1", n=Uint16(1))
         add("CreateInstance", "assoc-multi-namespace",
@@ -266,8 +311,23 @@ class Gen:
             path=CIMInstanceName("VAssoc", keybindings={
                 "left": _ipath("VA", NS1, k=Uint32(2)), "right": right2},
                 namespace=NS1))
+        # Spec case (MockAtomicImpl, Modify/DeleteInstanceMultiNs: "notfound2"):
+        # the copy in the other namespace is missing; the calls that meet
+        # that state follow as the next call
+        opath = orphan.path
+
+        def add_orphan():
+            self.force = [
+                ("ModifyInstance", "assoc-multi-namespace-copy-missing",
+                 lambda: c.ModifyInstance(CIMInstance("VAssoc", properties=[
+                     CIMProperty("note", "om%d" % u)], path=opath.copy()))),
+                ("DeleteInstance", "assoc-multi-namespace-copy-missing",
+                 lambda: c.DeleteInstance(opath.copy()))]
+            c.add_cimobjects(orphan, namespace=NS1)
         add("add_cimobjects", "single-assoc-in-one-namespace-only",
-            lambda: c.add_cimobjects(orphan, namespace=NS1))
+            add_orphan)
+        add("add_cimobjects", "single-assoc-in-one-namespace-only",
+            add_orphan)
         for ap in self.assocs:
             refs_ns2 = any(isinstance(v, CIMInstanceName) and
                            (v.namespace or "").lower() == NS2.lower()
@@ -338,6 +398,14 @@ class Gen:
                             "Caption", "c")], path=nspath(NS1)))))
         out.append(("remove_namespace", "namespace-with-provider-instance",
                     lambda: c.remove_namespace("root/nsp%d" % max(1, u - 1))))
+        # Spec case (MockAtomicImpl, DeleteClassProvider): the provider
+        # rejects the deletion of the m-th instance of the class (namespace
+        # not empty / the Interop namespace) after it accepted earlier ones
+        # (their namespaces are empty: start state of empty_first_template())
+        for _ in range(2):
+            out.append(("DeleteClass", "CIM_Namespace-provider-rejects",
+                        lambda: c.DeleteClass("CIM_Namespace",
+                                              namespace="interop")))
         out.append(("CreateInstance", "CIM_Namespace-second-interop",
                     lambda: c.CreateInstance(nsinst("root/interop"),
                                              namespace="interop")))
@@ -434,19 +502,22 @@ class Gen:
         out.append(("compile_mof_string", label,
                     lambda: c.compile_mof_string(mof, namespace=ns)))
         # file variant with an include: the bad production sits in the include
+        # (the files are written when the scenario is run)
         d = os.path.join(self.workdir, "mof%d" % u)
-        os.makedirs(d, exist_ok=True)
         inc = os.path.join(d, "inc%d.mof" % u)
         main = os.path.join(d, "main%d.mof" % u)
-        with open(inc, "w") as f:
-            f.write("\n".join(prods[len(prods) // 2:]) + "\n")
-        with open(main, "w") as f:
-            f.write("\n".join(p.replace("VM%d_" % u, "VF%d_" % u).replace(
-                "VMQ", "VFQ").replace("VMS", "VFS")
-                for p in prods[:len(prods) // 2]) +
-                '\n#pragma include ("inc%d.mof")\n' % u)
-        out.append(("compile_mof_file", label, lambda: c.compile_mof_file(
-            main, namespace=ns, search_paths=[d])))
+
+        def compile_file():
+            os.makedirs(d, exist_ok=True)
+            with open(inc, "w") as f:
+                f.write("\n".join(prods[len(prods) // 2:]) + "\n")
+            with open(main, "w") as f:
+                f.write("\n".join(p.replace("VM%d_" % u, "VF%d_" % u).replace(
+                    "VMQ", "VFQ").replace("VMS", "VFS")
+                    for p in prods[:len(prods) // 2]) +
+                    '\n#pragma include ("inc%d.mof")\n' % u)
+            c.compile_mof_file(main, namespace=ns, search_paths=[d])
+        out.append(("compile_mof_file", label, compile_file))
         out.append(("compile_mof_file", "missing-file",
                     lambda: c.compile_mof_file(
                         os.path.join(d, "nosuch.mof"), namespace=ns)))
@@ -591,34 +662,40 @@ class Gen:
         c, r = self.conn, self.rng
         d = os.path.join(self.workdir, "schema%d" % u)
         cname = "VS%d" % u
-        files = []
-        for part in ("a", "b", "c"):
-            sd = os.path.join(d, part)
-            os.makedirs(os.path.join(sd, "cls"), exist_ok=True)
-            with open(os.path.join(sd, "cls", cname + ".mof"), "w") as f:
-                f.write("class %s { [Key] uint32 k; string s_%s; };\n" %
-                        (cname, part))
-            pf = os.path.join(sd, "schema_%s.mof" % part)
-            with open(pf, "w") as f:
-                f.write('#pragma include ("cls/%s.mof")\n' % cname)
-            files.append((pf, sd))
         how = r.choice(["valid", "class-missing-in-later-file",
                         "broken-mof-in-later-file", "later-file-missing",
                         "class-missing-in-first-file"])
         k = r.choice([1, 2])
-        pfs = [x[0] for x in files]
-        if how == "class-missing-in-later-file":
-            open(files[k][0], "w").write("// nothing\n")
-        elif how == "broken-mof-in-later-file":
-            with open(os.path.join(files[k][1], "cls", cname + ".mof"),
-                      "w") as f:
-                f.write("class %s { oops\n" % cname)
-        elif how == "later-file-missing":
-            pfs[k] = os.path.join(d, "nosuch_schema.mof")
-        elif how == "class-missing-in-first-file":
-            open(files[0][0], "w").write("// nothing\n")
+
+        def compile_schema():
+            # (the files are written when the scenario is run)
+            files = []
+            for part in ("a", "b", "c"):
+                sd = os.path.join(d, part)
+                os.makedirs(os.path.join(sd, "cls"), exist_ok=True)
+                with open(os.path.join(sd, "cls", cname + ".mof"), "w") as f:
+                    f.write("class %s { [Key] uint32 k; string s_%s; };\n" %
+                            (cname, part))
+                pf = os.path.join(sd, "schema_%s.mof" % part)
+                with open(pf, "w") as f:
+                    f.write('#pragma include ("cls/%s.mof")\n' % cname)
+                files.append((pf, sd))
+            pfs = [x[0] for x in files]
+            if how == "class-missing-in-later-file":
+                with open(files[k][0], "w") as f:
+                    f.write("// nothing\n")
+            elif how == "broken-mof-in-later-file":
+                with open(os.path.join(files[k][1], "cls", cname + ".mof"),
+                          "w") as f:
+                    f.write("class %s { oops\n" % cname)
+            elif how == "later-file-missing":
+                pfs[k] = os.path.join(d, "nosuch_schema.mof")
+            elif how == "class-missing-in-first-file":
+                with open(files[0][0], "w") as f:
+                    f.write("// nothing\n")
+            c.compile_schema_classes(cname, pfs, namespace=ns)
         return [("compile_schema_classes", "%s@%d" % (how, k),
-                 lambda: c.compile_schema_classes(cname, pfs, namespace=ns))]
+                 compile_schema)]
 
     def id_keyed_association(self, u):
         """An association class whose key is an id (the references are not
